@@ -106,11 +106,11 @@ fn history(cfg: &Cfg, rep: &mut Report, kind: Kind, h: u64, ledgers: usize) {
             let b = if rng.chance(1, 6) { a } else { rng.idx(n) };
             let k = rng.below(100);
             let bal = m.units[a] as i128;
-            let amt = |rng: &mut Rng| -> i128 { *rng.pick(&[0i128, 1, 2, 7, 100, bal, bal / 2, bal + 1, 1 << 70]) };
+            let amt = |rng: &mut Rng| -> i128 { *rng.pick(&[0i128, 1, 2, 7, 100, bal, bal / 2, bal + 1, 1 << 70, -1]) };
             let own_ids: Vec<u32> = m.nft_owner.iter().filter(|(_, o)| **o == a).map(|(i, _)| *i).collect();
             let id = if own_ids.is_empty() { 9999 } else { *rng.pick(&own_ids) };
             let op = if k < 25 || (li == 0 && oi == 0) {
-                Op::Mint { to: a, a: if kind == Kind::Nft { 1 } else { amt(&mut rng).max(1) } }
+                Op::Mint { to: a, a: if kind == Kind::Nft { 1 } else if li == 0 && oi == 0 { amt(&mut rng).max(1) } else { amt(&mut rng) } }
             } else if k < 40 && kind != Kind::ExFungible {
                 Op::Burn { from: a, a: if kind == Kind::Nft { 1 } else { amt(&mut rng) }, id }
             } else if k < 62 {
@@ -152,7 +152,7 @@ fn history(cfg: &Cfg, rep: &mut Report, kind: Kind, h: u64, ledgers: usize) {
                 };
             }
             let want_ok = match (&op, kind) {
-                (Op::Mint { .. }, _) => true,
+                (Op::Mint { a, .. }, k) => k == Kind::Nft || *a >= 0,
                 (Op::Burn { from, id, .. }, Kind::Nft) | (Op::Transfer { from, id, .. }, Kind::Nft) | (Op::TransferFrom { from, id, .. }, Kind::Nft) | (Op::BurnFrom { from, id, .. }, Kind::Nft) => m.nft_owner.get(id) == Some(from),
                 (Op::Burn { from, a, .. }, _) | (Op::Transfer { from, a, .. }, _) | (Op::TransferFrom { from, a, .. }, _) | (Op::BurnFrom { from, a, .. }, _) => *a >= 0 && m.units[*from] as i128 >= *a,
                 (Op::Delegate { who, to }, _) => m.delegate[*who] != Some(*to),
